@@ -8,7 +8,7 @@ sys.path.insert(0, os.path.join(os.path.dirname(os.path.abspath(__file__)), ".."
 
 import drv
 import gen
-from common import Ctx, Counters, Failure, confirm, main_wrapper, run_workers, load_replay
+from common import Ctx, Counters, Failure, Skip, confirm, main_wrapper, run_workers, load_replay
 
 PID = "C10"
 RULE = ("for each configuration (outputs file / devlog / stdout / devnull / socket; formats with and without %{snoopy_threads}; "
@@ -17,7 +17,7 @@ RULE = ("for each configuration (outputs file / devlog / stdout / devnull / sock
         "from a dry run) and for k beyond N (fork with no thread inside the library); the main thread then fork()s; the child "
         "performs an exec (scripted failing and real), directly or after forking once more (depth 2). Oracle: the child's call "
         "reaches the real exec and its record appears; a lock attempt in the single-threaded child on a mutex that trylock reports "
-        "busy is a deterministic deadlock verdict (10 s backstop = inconclusive, never a verdict by itself); afterwards the "
+        "busy is a deterministic deadlock verdict, and so is a child found asleep in futex() at the 10 s backstop (a single-threaded child has nobody to wake it); a backstop hit without that is inconclusive, never a verdict; afterwards the "
         "parked thread and the parent complete their own calls with correct records. non-trivial = the fork was taken while the "
         "second thread was parked inside the call; distinct by (k, output, depth, real)")
 
@@ -33,20 +33,25 @@ def ini_for(out, okind, fmt):
 
 
 def run_case(d, c):
-    """c: dict(okind, fmt, k, depth, real).  Returns (events_total, parked) ; raises Failure."""
+    """c: dict(okind, fmt, k, depth, real[, naux, auxk, warm]).  Returns (events_total, parked) ; raises Failure.
+    depth 1: the child makes the call; 2: the child forks and the grandchild makes it; 3: the child makes a (failing) call, forks,
+    and the grandchild makes the call again.  naux further threads of the parent are stopped in the middle of their own calls.
+    warm=False: the second thread's call is the first call of the process (one-time initialisation included in the windows)."""
     out = d.out
+    naux, warm = c.get("naux", 0), c.get("warm", True)
     child_path = drv.ARGDUMP.encode() if c["real"] else b"/bin/child"
-    ops = [drv.op("x", out + "/log"), drv.op("S", 0, "pty")] + gen.std_sinks(out)[:5] + [drv.op("C", ini_for(out, c["okind"], c["fmt"])),
-                                                                   drv.op_exec("e", b"/bin/warm", [b"warmup"], [], ret=-1, err=2),
-                                                                   drv.op("J", c["k"], c["depth"]),
+    ops = [drv.op("x", out + "/log"), drv.op("S", 0, "pty")] + gen.std_sinks(out)[:5] + [drv.op("C", ini_for(out, c["okind"], c["fmt"]))] + \
+          ([drv.op_exec("e", b"/bin/warm", [b"warmup"], [], ret=-1, err=2)] if warm else []) + [
+                                                                   drv.op("J", c["k"], c["depth"], naux, c.get("auxk", 0)),
                                                                    drv.op_exec("e", b"/bin/B", [b"thread-B-call"], [], ret=-1, err=2, tno=0, callno=0),
                                                                    drv.op_exec("v" if c["depth"] == 2 else "e", child_path, [b"child-call"], [b"C=1"], ret=-1, err=2, real=c["real"]),
                                                                    drv.op_exec("e", b"/bin/P", [b"parent-after"], [], ret=-1, err=2),
                                                                    drv.op("L"), drv.op("G")]
     res = d.scenario(ops)
-    d.sanitizer_reports()
-    what = "output %s, format %r, fork with second thread parked after event k=%d, depth %d, %s exec in the child" % (
-        c["okind"], c["fmt"], c["k"], c["depth"], "real" if c["real"] else "failing")
+    reports = d.sanitizer_reports()
+    what = "output %s, format %r, fork with second thread parked after event k=%d%s%s, depth %d, %s exec in the child" % (
+        c["okind"], c["fmt"], c["k"], " and %d more threads inside their calls" % naux if naux else "", "" if warm else " of the process's first call",
+        c["depth"], "real" if c["real"] else "failing")
     J = res.of("j")
     if res.timedout or not J:
         raise Failure("scenario did not complete (%s)" % what, {"result": res.describe()}, key="hang")
@@ -55,20 +60,27 @@ def run_case(d, c):
     if status == "deadlock" or dl:
         raise Failure("child of fork() deadlocks in its exec call: %s (%s)" % (dl[0].f[0].decode() if dl else "lock busy forever", what),
                       {"parked_in_call": bool(parked), "events_in_call": events}, key="deadlock")
+    if status == "timeout-futex":
+        raise Failure("child of fork() is asleep in futex() for 10 s with nobody to wake it: its exec call blocks on a lock inherited from the parent (%s)" % what,
+                      {"parked_in_call": bool(parked)}, key="deadlock")
     if status == "timeout":
-        raise Failure("child's exec call did not complete within 10 s (%s)" % what, None, key="timeout")
+        raise Inconclusive("child's exec call did not complete within 10 s, but it is not blocked on a lock (%s)" % what)
     if status != "ok" or not res.clean:
-        raise Failure("child or parent ended abnormally: %s (%s)" % (status, what), {"result": res.describe(), "errors": res.errors()}, key="abnormal")
+        raise Failure("child or parent ended abnormally: %s (%s)" % (status, what), {"result": res.describe(), "errors": res.errors(),
+                                                                                      "sanitizer": [r[:1500] for r in reports[:1]]}, key="abnormal")
+    if naux and len(J[0].f) > 6 and int(J[0].f[6]) != naux and c["k"]:
+        raise Skip("auxiliary threads were not all stopped inside their calls")
     # the child's call reached the real exec
     if c["real"]:
         A = res.of("A")
         if len(A) != 1 or A[0].f[2:3] != [b"child-call"]:
             raise Failure("child's real exec did not start the target program (%s)" % what, None, key="child-exec")
     else:
-        if not res.of("c"):
+        if len(res.of("c")) != (2 if c["depth"] == 3 else 1):
             raise Failure("child's call did not return (%s)" % what, None, key="child-exec")
     Rs = res.of("R")
-    want_calls = 4
+    nchild = 2 if c["depth"] == 3 else 1
+    want_calls = (1 if warm else 0) + 1 + naux + nchild + 1
     if len(Rs) != want_calls:
         raise Failure("%d of %d calls reached the real exec (%s)" % (len(Rs), want_calls, what), None, key="count")
     # records: warmup, thread B, child, parent -- one each, at the configured sink
@@ -89,11 +101,163 @@ def run_case(d, c):
     if lines is not None:
         if c["real"] and c["okind"] in ("devlog", "socket"):
             pass   # datagrams sent by the child before exec are drained by whoever reads first; counted below leniently
-        for tag in (b"warmup", b"thread-B-call", b"child-call", b"parent-after"):
+        for tag, cnt in ((b"warmup", 1 if warm else 0), (b"thread-B-call", 1 + naux), (b"child-call", nchild), (b"parent-after", 1)):
             n = sum(1 for l in lines if l.endswith(tag))
-            if n != 1 and not (c["real"] and tag == b"child-call" and c["okind"] in ("devlog", "socket", "stdout") and n <= 1):
+            if n != cnt and not (c["real"] and tag == b"child-call" and c["okind"] in ("devlog", "socket", "stdout") and n <= 1):
                 raise Failure("record of %s appears %d times (%s)" % (tag.decode(), n, what), {"records": lines[:8]}, key="records")
     return events, bool(parked)
+
+
+class Inconclusive(Exception):
+    pass
+
+
+def rc_safe(d):
+    def f(cc):
+        try:
+            return run_case(d, cc)
+        except (Inconclusive, Skip):
+            return None
+    return f
+
+
+# ------------------------------------------------------------------ phase 2: stopped INSIDE libc (tracer-injected delays)
+DELAY_US = 700000
+PRE_MS = 200
+DELAY_FMT = "%{datetime}|%{login}|%{username}|%{eusername}|%{tty_username}|%{group}|%{hostname}|%{domain}|%{ipaddr}|%{cwd}|%{tty}|%{cgroup:1}|%{systemd_unit_name}|%{rpname}|%{cmdline}"
+DELAY_SHAPES = [("file", DELAY_FMT, False, 1), ("file", DELAY_FMT, True, 1), ("devlog", "%{cmdline}", False, 1), ("stdout", "%{username} %{cmdline}", False, 2),
+                ("socket", "%{datetime} %{cmdline}", True, 1)]
+PIDLINE = __import__("re").compile(r"^(\d+)\s+([a-z_0-9]+)\((.*)$")
+
+
+def delay_ops(out, okind, fmt, warm, depth):
+    return [drv.op("x", out + "/log"), drv.op("S", 0, "pty")] + gen.std_sinks(out)[:5] + [drv.op("C", ini_for(out, okind, fmt))] + \
+           ([drv.op_exec("e", b"/bin/warm", [b"warmup"], [], ret=-1, err=2)] if warm else []) + [
+            drv.op("I", PRE_MS, depth),
+            drv.op_exec("e", b"/bin/B", [b"thread-B-call"], [], ret=-1, err=2, tno=0, callno=0),
+            drv.op_exec("e", b"/bin/child", [b"child-call"], [b"C=1"], ret=-1, err=2),
+            drv.op_exec("e", b"/bin/P", [b"parent-after"], [], ret=-1, err=2), drv.op("L"), drv.op("G")]
+
+
+def thread_b_syscalls(logpath):
+    """per-thread syscall ENTRIES of the second thread inside its wrapped call: [(name, ordinal-within-thread, text)]"""
+    import trace
+    main = None
+    counts, inwin, b_pid, outl = {}, {}, None, []
+    with open(logpath, "r", errors="replace") as f:
+        for ln in f:
+            m = PIDLINE.match(ln)
+            if not m or "resumed>" in ln.split("(")[0]:
+                continue
+            pid, name = m.group(1), m.group(2)
+            if main is None:
+                main = pid
+            counts[(pid, name)] = counts.get((pid, name), 0) + 1
+            if name == "prctl" and trace.MARK in ln:
+                mm = __import__("re").search(trace.MARK + r"[^,]*, (?:0x)?(\d)", ln)
+                if mm and pid != main and (b_pid is None or pid == b_pid):
+                    ph = int(mm.group(1))
+                    if ph == 1 and b_pid is None:
+                        b_pid = pid
+                    inwin[pid] = ph in (1, 2)
+                continue
+            if pid == b_pid and inwin.get(pid):
+                outl.append((name, counts[(pid, name)], ln.strip()[:140]))
+    return outl
+
+
+def delay_eval(os_, events, shape, inj):
+    okind, fmt, warm, depth = shape
+    what = "output %s, format %r, %s, depth %d, second thread delayed by the tracer at %s" % (okind, fmt[:60], "warm" if warm else "first call of the process", depth, inj)
+    J = [e for e in events if e.code == "j"]
+    if not J:
+        raise Inconclusive("traced scenario did not complete (%s)" % what)
+    f = J[0].f
+    inside, status = int(f[1]), f[3].decode()
+    if status == "timeout-futex":
+        raise Failure("child of fork() is asleep in futex() for 10 s with nobody to wake it: its exec call blocks on state inherited from the parent (%s)" % what,
+                      {"second_thread_inside_its_call_at_fork": bool(inside)}, key="deadlock-libc")
+    if status != "ok":
+        raise Inconclusive("child: %s (%s)" % (status, what))
+    if not int(f[4]):
+        raise Failure("the parent's second thread never returned from its call (%s)" % what, None, key="parent-thread")
+    return bool(inside)
+
+
+def delay_worker(args):
+    import trace
+    idx, shapes = args
+    ctx = _W["ctx"]
+    os_ = trace.OneShot(ctx.run, _W["builds"]["ts-plain"], "delay%d" % idx)
+    local = Counters(ctx.known, 100 + idx)
+    fails = []
+    for shape, plans in shapes:
+        os_.write_scenario(delay_ops(os_.out, *shape))
+        for name, ordn, text in plans:
+            inj = "%s:delay_enter=%d:when=%d" % (name, DELAY_US, ordn)
+            c = {"shape": list(shape), "inject": inj, "at": text}
+            def once():
+                rc, events = os_.run_traced(["-e", "inject=" + inj], timeout=60, log=False, follow=True)
+                return delay_eval(os_, events, shape, inj + " [" + text[:70] + "]")
+            try:
+                inside = once()
+                local.count(("delay", shape[0], shape[2], shape[3], name, ordn) if inside else None,
+                            ["phase2:delayed-inside-libc", "out:" + shape[0], "syscall:" + name, "parked" if inside else "not-parked"], sample=c)
+            except Inconclusive as e:
+                local.count(None, ["phase2:inconclusive"])
+                local.inconclusive.append(str(e)[:300])
+            except Failure as f:
+                local.count(("delay", shape[0], shape[2], shape[3], name, ordn), ["phase2:delayed-inside-libc", "violating"], sample=c)
+                if local.is_known(f.key):
+                    local.known_hit(f.key, f.what)
+                    continue
+                n = 1
+                last = f
+                for _ in range(2):
+                    try:
+                        once()
+                    except Failure as f2:
+                        n += 1
+                        last = f2
+                    except Inconclusive:
+                        pass
+                if n == 3 and not fails:
+                    fails.append({"case": c, "what": last.what, "observed": last.observed, "expected": None})
+    return local.export(), fails
+
+
+def delay_phase(ctx, builds):
+    import trace
+    shapes = DELAY_SHAPES[:3] if ctx.quick else DELAY_SHAPES
+    per_shape = []
+    os_ = trace.OneShot(ctx.run, builds["ts-plain"], "delaydry")
+    for shape in shapes:
+        os_.write_scenario(delay_ops(os_.out, *shape))
+        rc, events = os_.run_traced([], timeout=60, follow=True)
+        plans = thread_b_syscalls(os_.log)
+        if rc != 0 or not plans:
+            ctx.inconclusive.append("phase 2 dry run failed for %r (rc=%s, %d syscalls)" % (shape[:1], rc, len(plans)))
+            continue
+        if ctx.quick and len(plans) > 70:
+            st = len(plans) / 70.0
+            plans = [plans[int(i * st)] for i in range(70)]
+        per_shape.append((shape, plans))
+    ctx.extra["phase2_syscalls_of_second_thread"] = {s[0] + ("/warm" if s[2] else "/first") + "/d%d" % s[3]: len(p) for s, p in per_shape}
+    # spread the plans over the workers
+    nw = 16
+    buckets = [[] for _ in range(nw)]
+    i = 0
+    for shape, plans in per_shape:
+        for k in range(nw):
+            part = plans[k::nw]
+            if part:
+                buckets[(k + i) % nw].append((shape, part))
+        i += 3
+    for out, fails in run_workers(delay_worker, nw, [(k, buckets[k]) for k in range(nw)]):
+        ctx.merge(out)
+        for f in fails[:1]:
+            if len(ctx.violations) < 3:
+                ctx.violation(f["case"], f["observed"], f["expected"], f["what"])
 
 
 _W = {}
@@ -102,58 +266,92 @@ _W = {}
 def worker(args):
     idx, jobs = args
     ctx = _W["ctx"]
-    b = _W["build"]
-    d = drv.Driver(ctx.run, b, extra_preload=[os.path.join(drv.BUILD, "libsched.so")], timeout_ms=40000)
+    drivers = {}
+
+    def driver(variant):
+        if variant not in drivers:
+            drivers[variant] = drv.Driver(ctx.run, _W["builds"][variant], extra_preload=[os.path.join(drv.BUILD, "libsched.so")], timeout_ms=40000)
+        return drivers[variant]
     local = Counters(ctx.known, idx)
     fails = []
-    for okind, fmt, depth, real in jobs:
+    for job in jobs:
+        okind, fmt, depth, real = job[:4]
+        opt = job[4] if len(job) > 4 else {}
+        naux, warm, variant = opt.get("naux", 0), opt.get("warm", True), opt.get("variant", "ts-plain")
+        d = driver(variant)
+        base = {"okind": okind, "fmt": fmt, "depth": depth, "real": real, "naux": 0, "auxk": 0, "warm": warm, "variant": variant}
         # dry run: how many lock/unlock events does the call have?
         try:
-            events, _ = run_case(d, {"okind": okind, "fmt": fmt, "k": 0, "depth": depth, "real": real})
+            events, _ = run_case(d, dict(base, k=0))
+        except Inconclusive as e:
+            local.inconclusive.append(str(e)[:300])
+            continue
         except Failure as f:
             if not fails:
-                fails.append({"case": {"okind": okind, "fmt": fmt, "k": 0, "depth": depth, "real": real}, "what": f.what, "observed": f.observed, "expected": None})
+                fails.append({"case": dict(base, k=0), "what": f.what, "observed": f.observed, "expected": None})
             continue
         local.extra["lock_events_per_call"] = events
+        base.update({"naux": naux, "auxk": max(1, events // 2) if naux else 0})
         for k in list(range(1, events + 1)) + [events + 5]:
-            c = {"okind": okind, "fmt": fmt, "k": k, "depth": depth, "real": real}
+            c = dict(base, k=k)
             try:
                 ev2, parked = run_case(d, c)
-                local.count((k, okind, fmt, depth, real) if parked else None, ["out:" + okind, "depth:%d" % depth, "real" if real else "failing", "parked" if parked else "not-parked"],
-                            sample=c)
+                local.count((k, okind, fmt, depth, real, naux, warm, variant) if parked else None,
+                            ["out:" + okind, "depth:%d" % depth, "real" if real else "failing", "parked" if parked else "not-parked", "build:" + variant] +
+                            (["more-threads-inside:%d" % naux] if naux else []) + ([] if warm else ["first-call-of-process"]), sample=c)
+            except Skip:
+                local.count(None, ["skipped:aux-not-parked"])
+            except Inconclusive as e:
+                local.count(None, ["inconclusive:slow"])
+                local.inconclusive.append(str(e)[:300])
             except Failure as f:
                 local.count((k, okind, fmt, depth, real), ["out:" + okind, "violating"], sample=c)
                 if local.is_known(f.key):
                     local.known_hit(f.key, f.what)
-                elif f.key == "timeout":
-                    ok, last = confirm(lambda cc: run_case(d, cc), c)
-                    if ok and not fails:
-                        fails.append({"case": c, "what": last.what, "observed": last.observed, "expected": None})
-                    elif not ok:
-                        local.inconclusive.append("timeout not reproduced 3/3: " + f.what)
                 elif not fails:
-                    ok, last = confirm(lambda cc: run_case(d, cc), c)
+                    ok, last = confirm(rc_safe(d), c)
                     if ok:
                         fails.append({"case": c, "what": last.what, "observed": last.observed, "expected": None})
-    d.close()
+    for d in drivers.values():
+        d.close()
     return local.export(), fails
 
 
 def main():
     ctx = Ctx(PID, "exploration", RULE)
-    b = ctx.run.build("ts-plain")
+    bl = ctx.run.build_many(["ts-plain", "ts-asan"])
+    builds = {"ts-plain": bl[0], "ts-asan": bl[1]}
+    b = builds["ts-plain"]
     ctx.assumptions = ["scheduling points are the library's pthread_mutex_lock/unlock calls (interposed, no source change); a fork handler of "
                        "the library that waits for the parked thread's lock makes the harness release that thread (the harness is agnostic "
                        "about how fork-safety is achieved)", "in the single-threaded child a busy lock can never be released: deterministic verdict",
                        "exhaustive over the lock/unlock events of one call per explored configuration, not over arbitrary instructions"]
     if ctx.replay:
         case, _ = load_replay(ctx.replay)
-        d = drv.Driver(ctx.run, b, extra_preload=[os.path.join(drv.BUILD, "libsched.so")], timeout_ms=40000)
+        if "inject" in case:
+            import trace
+            os_ = trace.OneShot(ctx.run, b, "replay")
+            shape = tuple(case["shape"])
+            os_.write_scenario(delay_ops(os_.out, *shape))
+            rc, events = os_.run_traced(["-e", "inject=" + case["inject"]], timeout=60, follow=True)
+            ctx.count("replay-1", ["replay"], sample=case)
+            ctx.nontrivial.add("replay-2")
+            try:
+                delay_eval(os_, events, shape, case["inject"])
+                print("replay: property holds for this case")
+            except Inconclusive as e:
+                ctx.inconclusive.append(str(e))
+            except Failure as f:
+                ctx.violation(case, f.observed, f.expected, f.what)
+            ctx.finish()
+        d = drv.Driver(ctx.run, builds[case.get("variant", "ts-plain")], extra_preload=[os.path.join(drv.BUILD, "libsched.so")], timeout_ms=40000)
         ctx.count("replay-1", ["replay"], sample=case)
         ctx.nontrivial.add("replay-2")
         try:
             run_case(d, case)
             print("replay: property holds for this case")
+        except Inconclusive as e:
+            ctx.inconclusive.append(str(e))
         except Failure as f:
             ctx.violation(case, f.observed, f.expected, f.what)
         d.close()
@@ -164,6 +362,16 @@ def main():
         for depth in (1, 2):
             for real in (False, True):
                 jobs.append((okind, fmt, depth, real))
+    # further shapes: more threads of the parent inside the library (memory-checked build), the second thread inside the process's
+    # FIRST call (one-time initialisation), a child whose own call fails and which then forks again
+    for okind, fmt in (CONFIGS[1], CONFIGS[3]) if ctx.quick else CONFIGS[:5]:
+        jobs.append((okind, fmt, 1, False, {"naux": 2, "variant": "ts-asan"}))
+        jobs.append((okind, fmt, 3, False, {"warm": False}))
+        jobs.append((okind, fmt, 1, True, {"warm": False, "variant": "ts-asan"}))
+        if not ctx.quick:
+            jobs.append((okind, fmt, 3, False, {"naux": 3}))
+            jobs.append((okind, fmt, 2, False, {"naux": 1, "warm": False, "variant": "ts-asan"}))
+    jobs.sort(key=lambda j: -len(j[1]))
     if not ctx.quick:
         rng = random.Random(ctx.seed)
         for _ in range(24):
@@ -171,12 +379,13 @@ def main():
             fmt += " %{cmdline}"          # records are recognised by their trailing command line
             jobs.append((rng.choice(["file", "devlog", "stdout", "socket"]), fmt, rng.choice([1, 2]), rng.random() < 0.4))
     nw = 16
-    _W.update({"ctx": ctx, "build": b})
+    _W.update({"ctx": ctx, "builds": builds})
     for out, fails in run_workers(worker, nw, [(i, jobs[i::nw]) for i in range(nw)]):
         ctx.merge(out)
         for f in fails[:1]:
             if len(ctx.violations) < 3:
                 ctx.violation(f["case"], f["observed"], f["expected"], f["what"])
+    delay_phase(ctx, builds)
     ctx.extra["exhaustive"] = True
     ctx.extra["exhaustive_note"] = "every lock/unlock event k of the second thread's call, per explored (output, format, depth, exec kind)"
     ctx.finish()
